@@ -440,6 +440,8 @@ class _Module:
                         raise TranslateError(f'bsp.py BSP.{name}:{n.lineno}: view alias {n.id} aliased again')
                     if k != 'param':
                         out.setdefault('uses', []).append((alias[n.id], k, n.lineno))
+            for v, line in _element_mutations(fn, alias, set(self.views)):
+                out.setdefault('elem_mut', []).append((v, line))
             self._walk_body(fn.body, ctx, out, visit_func, f'bsp.py BSP.{name}')
 
         if fname not in self.methods:
@@ -600,6 +602,98 @@ def _classify_use(n: ast.Attribute, par: dict[int, ast.AST]) -> str:
     if isinstance(p, ast.AugAssign) and p.target is n:
         return 'mutate'
     return 'read'                   # for-iteration, comparison, boolean test, comprehension source, f-string ...
+
+
+def _element_mutations(fn: ast.FunctionDef, alias: dict[str, str], views: set[str]) -> list[tuple[str, int]]:
+    """Objects REACHED THROUGH a view that the function changes in place (the view container itself is classified by
+    _classify_use): `vmf = self.ents; for ent in vmf.entities: ent.pop('model')`, `of = orig_faces[i]; of.texinfo = t`.
+    A local name is tainted by view V when it is bound (assignment, for target, comprehension target, with-as, walrus)
+    from an expression that mentions `self.V`, an alias of V or a name tainted by V.  A change is an attribute / item
+    store or delete, an augmented assignment to an attribute / item, or a call of an appending / mutating method, whose
+    receiver chain (attributes, subscripts, method calls) is rooted at a tainted name — or at the view itself and at
+    least two links long.  May-analysis: over-approximate (a number computed from a view taints its name, but numbers
+    have no attribute stores); the result is a census of (view) pairs, compared with the list that was reviewed."""
+    taint: dict[str, set[str]] = {}
+
+    def mentions(e: ast.AST) -> set[str]:
+        out: set[str] = set()
+        for x in ast.walk(e):
+            if isinstance(x, ast.Name):
+                if x.id in alias:
+                    out.add(alias[x.id])
+                out |= taint.get(x.id, set())
+            elif _is_self_attr(x) and x.attr in views:
+                out.add(x.attr)
+        return out
+
+    def bind(target: ast.AST, vs: set[str]) -> bool:
+        ch = False
+        for x in ast.walk(target):
+            if isinstance(x, ast.Name) and isinstance(x.ctx, ast.Store) and x.id not in alias:
+                if not vs <= taint.get(x.id, set()):
+                    taint.setdefault(x.id, set()).update(vs)
+                    ch = True
+        return ch
+
+    for _ in range(12):
+        changed = False
+        for n in ast.walk(fn):
+            if isinstance(n, ast.Assign):
+                vs = mentions(n.value)
+                if vs:
+                    for t in n.targets:
+                        changed |= bind(t, vs)
+            elif isinstance(n, (ast.AnnAssign, ast.NamedExpr)) and getattr(n, 'value', None) is not None:
+                vs = mentions(n.value)
+                if vs:
+                    changed |= bind(n.target, vs)
+            elif isinstance(n, (ast.For, ast.comprehension)):
+                vs = mentions(n.iter)
+                if vs:
+                    changed |= bind(n.target, vs)
+            elif isinstance(n, ast.withitem) and n.optional_vars is not None:
+                vs = mentions(n.context_expr)
+                if vs:
+                    changed |= bind(n.optional_vars, vs)
+        if not changed:
+            break
+    else:
+        raise TranslateError(f'bsp.py BSP.{fn.name}: element taint does not stabilise')
+
+    def root(e: ast.AST) -> tuple[set[str], int]:
+        """Views at the root of a receiver chain and the number of links below the root."""
+        depth = 0
+        while True:
+            if isinstance(e, (ast.Attribute, ast.Subscript)):
+                if _is_self_attr(e) and e.attr in views:
+                    return {e.attr}, depth
+                e, depth = e.value, depth + 1
+            elif isinstance(e, ast.Call) and isinstance(e.func, ast.Attribute):
+                e, depth = e.func.value, depth + 1
+            else:
+                break
+        if isinstance(e, ast.Name):
+            if e.id in alias:
+                return {alias[e.id]}, depth
+            return set(taint.get(e.id, set())), depth + 1      # an element: one link below the view already
+        return set(), depth
+
+    found: list[tuple[str, int]] = []
+    for n in ast.walk(fn):
+        recv = None
+        if isinstance(n, (ast.Attribute, ast.Subscript)) and isinstance(n.ctx, (ast.Store, ast.Del)):
+            recv = n.value
+            extra = 1
+        elif isinstance(n, ast.Call) and isinstance(n.func, ast.Attribute) and n.func.attr in (APPEND_METHODS | MUTATE_METHODS):
+            recv = n.func.value
+            extra = 1
+        if recv is None:
+            continue
+        vs, depth = root(recv)
+        if vs and depth + extra >= 2:
+            found += [(v, n.lineno) for v in sorted(vs)]
+    return found
+
 
 
 # ---------------------------------------------------------------------------------- __get__ / save shape
@@ -950,6 +1044,7 @@ def translate() -> tuple[str, dict]:
     side_views = {}
     view_uses: list[tuple[str, int, int, str, int]] = []
     reader_stores: list[tuple[int, int, int]] = []
+    elem_muts: list[tuple[str, int, int, int]] = []
     for i, v in enumerate(view_at):
         if v is None:
             decls.append(([], [], [], []))
@@ -981,6 +1076,9 @@ def translate() -> tuple[str, dict]:
         for who, eff in (('reader', rd), ('writer', wr)):
             for used, kind, line in eff.get('uses', []):
                 view_uses.append((who, i, vnum(used, v), kind, line))
+            for used, line in eff.get('elem_mut', []):
+                if used != v:       # a reader builds, a writer may normalise, the objects of its OWN view
+                    elem_muts.append((who, i, vnum(used, v), line))
         decls.append((own, rdeps, wdeps, wstore))
         side_views[v] = {
             'position': i, 'main': m.views[v][0], 'extra': m.views[v][1],
@@ -1002,6 +1100,9 @@ def translate() -> tuple[str, dict]:
     def uses(who: str) -> str:
         trip = sorted({(a, b, KIND[k]) for w, a, b, k, _ in view_uses if w == who})
         return '[' + '; '.join(f'({a}, {b}, {k})' for a, b, k in trip) + ']'
+
+    def emuts(who: str) -> str:
+        return '[' + '; '.join(f'({a}, {b})' for a, b in sorted({(a, b) for w, a, b, _ in elem_muts if w == who})) + ']'
 
     def cb(b: bool) -> str:
         return 'true' if b else 'false'
@@ -1044,12 +1145,16 @@ def translate() -> tuple[str, dict]:
         '(* how readers / writers use the views they look at: (view, used view, 0 read | 1 append | 2 mutate | 3 escape) *)',
         'Definition bsp_reader_uses : list (nat * nat * nat) := ' + uses('reader') + '.',
         'Definition bsp_writer_uses : list (nat * nat * nat) := ' + uses('writer') + '.',
+        '(* objects reached through ANOTHER view that a reader / writer changes in place: (view, view whose objects change) *)',
+        'Definition bsp_reader_elem_mutations : list (nat * nat) := ' + emuts('reader') + '.',
+        'Definition bsp_writer_elem_mutations : list (nat * nat) := ' + emuts('writer') + '.',
         '',
     ]
     side = {
         'get_shape': gshape, 'save_shape': sshape, 'container_layout': lay,
         'reader_stores': [[view_at[a], names[b], ln] for a, b, ln in sorted(set(reader_stores))],
         'view_uses': [[w, view_at[a], (view_at[b] if b < len(view_at) else '?'), k, ln] for w, a, b, k, ln in sorted(set(view_uses))],
+        'elem_mutations': [[w, view_at[a], (view_at[b] if b < len(view_at) else '?'), ln] for w, a, b, ln in sorted(set(elem_muts))],
         'order': order, 'views': side_views, 'not_in_order': not_in_order, 'order_without_view': order_without_view,
         'cond_stores': [[view_at[a], names[b], c] for a, b, c in cond_stores],
         'graph': [list(map(list, d)) for d in decls], 'view_at': view_at,
